@@ -97,6 +97,20 @@ def replay(mod, path: str) -> int:
         print(f"replay file names no operation (kind={data.get('kind')}): {data.get('what')}")
         # re-run the obligations
         return run_standard(mod, data.get("tier", "quick"))
+    import impl as impl_mod
+
+    for m in ("impl_call", "impl_hist", "impl_pyd", "impl_sym"):
+        try:
+            importlib.import_module(m)
+        except Exception:  # noqa: BLE001
+            pass
+    if ops[0].split("\t")[0] not in impl_mod.HANDLERS or not hasattr(mod, "judge"):
+        # the finding comes from an observation pass of the check (fresh interpreters, twins, capture modes, table cells):
+        # those are deterministic functions of the tree under test and the seed, so the replay is the pass itself
+        print(f"replaying the observation pass that produced: {ops[0]!r}")
+        os.environ["VERIF_SEED"] = str(data.get("seed", 0))
+        common.SEED = int(data.get("seed", 0))
+        return mod.main(data.get("tier", "quick")) if hasattr(mod, "main") else run_standard(mod, data.get("tier", "quick"))
     run = Run(mod.PROP, "quick")
     run.prep = framework.prepare([], [], with_dtypes=getattr(mod, "NEEDS_DTYPES", True))
     cases = [Case(o, "replay") for o in ops[:1]]
